@@ -2553,6 +2553,19 @@ namespace awkward {
         starts.data());
       util::handle_error(err5, classname(), identities_.get());
 
+      if (shifts.length() == index_length) {
+        // sorting across lists: a position counts the lists that do not
+        // reach this far, for missing values as for the others
+        int64_t k = 0;
+        for (int64_t i = 0;  i < index_length;  i++) {
+          if (index_.getitem_at_nowrap(i) < 0) {
+            nulls_index.setitem_at_nowrap(
+              k, nulls_index.getitem_at_nowrap(k) + shifts.getitem_at_nowrap(i));
+            k++;
+          }
+        }
+      }
+
       ContentPtr ind = std::make_shared<NumpyArray>(nulls_index);
 
       if (out.get()->mergeable(ind, true)) {
